@@ -38,7 +38,7 @@ REQUIRED_THEOREMS = [
     "source_vertex_to_corners_reads_table", "source_vertex_to_vertices_reads_table",
     # round 7
     "source_face_first_corner_table_eq_model", "source_face_to_first_corner_eq_model", "source_face_to_corners_eq_model", "source_face_to_faces_eq_model", "source_cached_accessors_eq_model",
-    "umbrella_check_complete", "umbrella_check_iff", "ring_sorted_of_check", "source_corner_to_face_eq_model",
+    "umbrella_check_complete", "umbrella_check_iff", "ring_sorted_of_check", "source_corner_to_face_eq_model", "source_polyline_compute_connectivity_eq_model",
 ]
 TRUSTED = [
     "Lean 4.33.0 kernel; axioms ⊆ {propext, Classical.choice, Quot.sound}",
@@ -875,7 +875,7 @@ def _smap():
     m[S + "SurfaceMesh.__str__"] = "out-of-scope: printing"
     m[S + "SurfaceMesh.ith_vertex_of_face"] = "out-of-scope: plain indexing helper, not an adjacency answer of the statement"
     m[S + "SurfaceMesh.pt_of_face"] = "out-of-scope: coordinates (C07), not connectivity"
-    for f in ["PolyLine._Connectivity.__init__", "PolyLine._Connectivity.clear", "PolyLine._Connectivity._compute_connectivity",
+    for f in ["PolyLine._Connectivity.__init__", "PolyLine._Connectivity.clear",
               ]:
         m[L + f] = g
     for f in ["PolyLine.__init__", "PolyLine.__str__", "PolyLine.id_vertices", "PolyLine.id_edges"]:
